@@ -87,6 +87,10 @@ def gen_sock(rng, tier, mode=None, boundary=None):
                          # raw: the handler answers with the body itself at top level (never None: empty bodies excepted)
                          raw=(not echo and spec[0] != 'empty' and spec[1] > 0 and rng.random() < 0.3),
                          via='stream' if k < nstream else 'req'))
+        # the route: '/' is an `async def` handler, '/p' a plain callable returning the awaitable (a failing request
+        # to it raises when the route is CALLED, not inside the coroutine); streams use one path for all elements
+        if reqs[-1]['via'] == 'req' and rng.random() < 0.3:
+            reqs[-1]['route'] = '/p'
     rng.shuffle(reqs)
     if boundary == 'abandon':
         # a requester gives up on a slow request (`response_timeout` expires) and goes on with the next one on
